@@ -18,6 +18,11 @@ def funnel_shared_job(tag, n_quick=600, n_thorough=30000):
             "why": "the Lean-defined property monitor fails, for one of the sources, on the event log of 2-3 real funnel.Workers "
                    "(one per source, own DLQ) running concurrently into one shared sink (funnel.NewSink shared boundary)"}
 
+def arbiter_job(n_quick=20000, n_thorough=600000):
+    return {"harness": "h_pure", "comp": "arbiter", "n_quick": n_quick, "n_thorough": n_thorough,
+            "why": "parent calls / verdicts of the real multiAckNacker or runAckNacker+splitRun differ from the pure arbiter functions "
+                   "(Spec/Arbiter.lean) about which the C01/C04/C07/C08 arbiter theorems are proved and to which the engine model is tied by simulation lemmas"}
+
 FUNNEL_RULE = ("funnel: task tree (0-3 processors, 1-3 destination branches, optional branch processor), DLQ window config, 1-3 source "
                "batches, and plugin replies generated reactively per call (pass/modify/filter/error/split/nil, fewer/more/none; "
                "destination acks partitioned into several responses with errors, wrong/extra/out-of-order/short/empty/error responses), "
